@@ -39,7 +39,9 @@ class BoolOperation(object):
             if self.done:
                 return
 
-            del self.fs[f]
+            # The same future may have been passed more than once, in which
+            # case it has already been removed by an earlier callback.
+            self.fs.pop(f, None)
 
             (set_result, set_exception, cancel_futures) = self.get_state_update(f)
 
